@@ -15,7 +15,8 @@ That each algorithm returns the minimum over all paths, and that the five routin
 """
 import ast
 
-from ..core.astutil import norm, ParentMap, same_up_to_reordering
+from ..core import spelling
+from ..core.astutil import norm, cn, ParentMap, same_up_to_reordering
 from ..core.cfg import CFG
 from ..core.loader import walk_no_nested
 from ..core.pattern import Matcher
@@ -137,7 +138,7 @@ def _dijkstra_core(rep, f, m, fn_node, G, tag, with_hops):
     lp = src[0]
     u = norm(lp.target)
     top = [norm(s) for s in lp.body if isinstance(s, ast.Assign)]
-    okt = 'S = np.ones((n,), dtype=bool)' in top and 'G1 = %s.copy()' % G in top and 'V = [%s]' % u in top
+    okt = cn('S = np.ones((n,), dtype=bool)') in top and 'G1 = %s.copy()' % G in top and 'V = [%s]' % u in top
     rep.ob('K.dijkstra-per-source-state', f, '; '.join(top), okt, 'temporary-label set, working copy and frontier must be re-created per source' + tag, line=lp.lineno)
     wl = [s for s in lp.body if isinstance(s, ast.While)]
     if len(wl) != 1:
@@ -216,8 +217,8 @@ def _floyd(prog, rep):
     rep.ob('T.transforms', f, '; '.join(sorted(tr)), tr == {'-np.log(%s)' % A, '1 / %s' % A}, "transforms must be -log(w) and 1/w (absent connections map to inf by themselves)", line=f.node.lineno)
     if len(kl) == 1:
         b = [norm(s) for s in kl[0].body]
-        okk = 'i2k_k2j = np.repeat(SPL[:, [k]], n, 1) + np.repeat(SPL[[k], :], n, 0)' in b and 'path = SPL > i2k_k2j' in b and 'SPL = np.min(np.stack([SPL, i2k_k2j], 2), 2)' in b \
-            and b.index('path = SPL > i2k_k2j') < b.index('SPL = np.min(np.stack([SPL, i2k_k2j], 2), 2)')
+        okk = 'i2k_k2j = np.repeat(SPL[:, [k]], n, 1) + np.repeat(SPL[[k], :], n, 0)' in b and 'path = SPL > i2k_k2j' in b and cn('SPL = np.min(np.stack([SPL, i2k_k2j], 2), 2)') in b \
+            and b.index('path = SPL > i2k_k2j') < b.index(cn('SPL = np.min(np.stack([SPL, i2k_k2j], 2), 2)'))
         rep.ob('K.floyd-strict-improvement-then-minimum', f, '; '.join(b)[:160], okk,
                'for every k: candidate = SPL[i,k] + SPL[k,j]; pairs with a strictly shorter candidate are recorded from the *old* SPL, then SPL takes the minimum', line=kl[0].lineno)
     dz = [norm(s) for s in f.node.body if isinstance(s, ast.Assign) and kl and s.lineno > kl[0].lineno]
@@ -408,7 +409,7 @@ def _clones(prog, rep):
         a = [x.replace(f.params[0], 'G') for x in _loop_sig(lf[0].body)] if lf else None
         b = [x.replace(g.params[0], 'G') for x in _loop_sig(lg[0].body)] if lg else None
         same = a is not None and b is not None and lf and lg and same_up_to_reordering(
-            [ast.parse(x).body[0] for x in b], a)
+            [spelling.parse(x).body[0] for x in b], a)
         rep.ob('C.private-bfs-is-a-clone-of-distance_bin', g, 'loop body: %s' % '; '.join(b or [])[:120], bool(same),
                'the search loop of efficiency_bin.distance_inv differs from distance_bin: the efficiency would be computed from other "distances"', line=g.node.lineno)
     f = prog.func(DIST, 'distance_wei')
